@@ -140,8 +140,19 @@ def main(argv):
     known = load_known()
     violations = []; knownhits = []; unconfirmed = []
     os.makedirs(os.path.join(VERIF, 'replays', pid), exist_ok=True)
+    nrep = {}
     for o in obs:
         if o['status'] != 'candidate': continue
+        k = o['key']
+        if nrep.get(k, 0) >= 3 and any(v['key'] == k for v in violations + [h[0] for h in knownhits]):
+            # the key is already confirmed by replay: further candidates of the same key are counted, not replayed
+            o['status'] = 'known' if any(h[0]['key'] == k for h in knownhits) else 'violated'; o['replay'] = 'same key as a replayed and confirmed candidate'
+            if o['status'] == 'violated': o['replay_path'] = [v for v in violations if v['key'] == k][0]['replay_path']; violations.append(o)
+            else: knownhits.append((o, [h[1] for h in knownhits if h[0]['key'] == k][0]))
+            continue
+        nrep[k] = nrep.get(k, 0) + 1
+        if nrep[k] > 12:
+            o['status'] = 'unconfirmed'; o['replay'] = 'replay budget for this key exhausted without a reproduction'; unconfirmed.append(o); continue
         try:
             conf, detail = modl.replay(ctx, o)
         except Exception:
@@ -152,7 +163,7 @@ def main(argv):
         rp = os.path.join(VERIF, 'replays', pid, re.sub(r'[^A-Za-z0-9_.-]', '_', o['name'])[:120] + '.json')
         json.dump({'property': pid, 'obligation': o, 'replay_detail': detail}, open(rp, 'w'), indent=1, default=str)
         o['replay_path'] = rp
-        hit = [k for k in known if k.get('property') == pid and k.get('status') == 'known' and k.get('key') == o['key']]
+        hit = [k2 for k2 in known if k2.get('property') == pid and k2.get('status') == 'known' and k2.get('key') == o['key']]
         if hit: o['status'] = 'known'; knownhits.append((o, hit[0]))
         else: o['status'] = 'violated'; violations.append(o)
     nd = sum(1 for o in obs if o['status'] == 'discharged'); nu = sum(1 for o in obs if o['status'] in ('undecided', 'unconfirmed'))
@@ -189,15 +200,19 @@ def main(argv):
     json.dump(ev, open(os.path.join(VERIF, 'evidence', pid + '.json'), 'w'), indent=1, default=str)
     print('%s tier=%s obligations=%d discharged=%d undecided=%d violated=%d known=%d broken=%d wall=%.1fs solver=%.1fs' %
           (pid, tier, len(obs), nd, nu, len(violations), len(knownhits), len(brk), wall, ev['coverage']['solver_s_total']))
-    for o in obs:
-        if o['status'] in ('undecided', 'unconfirmed'): print('  UNDECIDED %s: %s %s' % (o['name'], o['detail'][:160], o.get('replay', '')[:160]))
+    und = [o for o in obs if o['status'] in ('undecided', 'unconfirmed')]
+    for o in und[:25]: print('  UNDECIDED %s: %s %s' % (o['name'], o['detail'][:160], o.get('replay', '')[:160]))
+    if len(und) > 25: print('  ... and %d more undecided obligations (see evidence file)' % (len(und) - 25))
     seen = set()
     for o, k in knownhits:
         if k['key'] in seen: continue
         seen.add(k['key']); print('KNOWN-FINDING: property=%s %s' % (pid, k.get('what', k['key'])))
-    for o in brk: print('BROKEN-HARNESS: %s: %s' % (o['name'], o['detail'][:600]))
+    for o in brk[:10]: print('BROKEN-HARNESS: %s: %s' % (o['name'], o['detail'][:600]))
+    seen = set()
     for o in violations:
-        print('  violated obligation %s model=%s replay: %s' % (o['name'], json.dumps(o['model'])[:300], str(o.get('replay'))[:300]))
+        if o['key'] in seen: continue
+        seen.add(o['key']); n = sum(1 for v in violations if v['key'] == o['key'])
+        print('  violated: key=%s (%d obligations) first=%s model=%s replay: %s' % (o['key'], n, o['name'], json.dumps(o['model'])[:400], str(o.get('replay'))[:400]))
         print('VIOLATION property=%s replay=%s' % (pid, o['replay_path']))
     if violations: return 1
     if brk: return 2
